@@ -147,3 +147,41 @@ sync_harness!(c04_sync_n1_f, 1, 1);
 sync_harness!(c04_sync_n2_f, 2, 2);
 // @harness name=c04_sync_n3_f prop=C04 tier=quick timeout=900
 sync_harness!(c04_sync_n3_f, 3, 2);
+
+// ---- the caller side of the acknowledgement contract ----
+// The worker harnesses (c04_worker.rs) run scripts in which every Write carries
+// `sync = true`, the journal end as `upto_offset` and all bytes journalled so
+// far. This harness checks that this is what the real `RaftLog::flush` hands
+// over, with and without a callback (a flush without a callback must still
+// request the sync: a later flush that finds nothing new to write relies on it).
+// @harness name=c04_flush_request_shape prop=C04 tier=quick timeout=1500
+crate::kani_support::env_proof! {
+    unwind = 6, rot = ghost, crc = off,
+    #[kani::stub(crate::raft_log::wal::RaftLogWAL::send_request, crate::raft_log::wal::kani_h_a_wal::stub_send_request)]
+    fn c04_flush_request_shape() {
+        use crate::api::raft_log_writer::RaftLogWriter;
+        use crate::kani_support::common::*;
+        use crate::kani_support::ktypes::*;
+        use crate::raft_log::wal::kani_h_a_wal as aw;
+        let cfg = mk_config(None, None, None, None);
+        let mut rl: crate::RaftLog<RTypes> = open_empty(cfg);
+        let v: (u8, u8) = kani::any();
+        assert!(is_ok(rl.save_vote(v)));
+        let pend0 = crate::chunk::open_chunk::kani_h_a_open_chunk::pending_len(&rl.wal.open);
+        let end0 = rl.wal.open.chunk.global_end();
+        assert!(is_ok(rl.flush(None)), "flush failed");
+        assert!(is_ok(rl.flush(Some(GhostCb { id: 1 }))), "flush failed");
+        unsafe {
+            assert!(aw::N_SENT_WRITES == 2 && aw::N_SENT_OTHER == 0, "each flush hands exactly one Write to the worker");
+            let a = aw::SENT_WRITES[0];
+            let b = aw::SENT_WRITES[1];
+            assert!(a.sync && b.sync, "a flush must request a sync whether or not a callback is attached");
+            assert!(a.upto == end0 && b.upto == end0, "upto_offset is not the journal end");
+            assert!(a.len == pend0 && pend0 > 0 && b.len == 0, "flush does not hand over exactly the bytes journalled since the previous flush");
+            assert!(!a.has_cb && b.has_cb, "callback not attached to its own flush request");
+        }
+        assert!(crate::chunk::open_chunk::kani_h_a_open_chunk::pending_len(&rl.wal.open) == 0);
+        kani::cover!(true, "two flushes observed");
+        core::mem::forget(rl);
+    }
+}
